@@ -1,2 +1,150 @@
--- stub: driver for C06 not written yet
-def main : IO Unit := pure ()
+import CMacVerif.Model.IonBalance
+import CMacVerif.Inst.Float
+import CMacVerif.Util.Bits
+/-!
+Line-protocol driver for C06: the `Float` instantiation of `Model/IonBalance.lean`.
+Every double crosses the boundary as the decimal value of its bit pattern.  Ops (full form, as
+written by `c06 --prep`):
+
+* `h0 aH jH nH`
+* `h0m aH jH nH aH' jH' nH'`
+* `met T <47 values of MetalIn>`
+* `hhe aH aHe jH jHe nH AHe T`  (`hhex`, `cellx`, `tempx`: same ops on inputs outside the stated domain)
+* `cell jfac n T AHe mean[14] a[14] ct[19]`
+* `temp <19 scalars> mean[14] heat[2] met0[12] aH8 aHe8 ntab (T h0 he0 gain loss f[12])*ntab`
+* `abort …` (the implementation aborted while the line was prepared)
+-/
+open CMacVerif CMacVerif.Util CMacVerif.IonBalance
+
+def fl (s : String) : Float := fOfBits (nat! s)
+
+def nan : Float := 0.0 / 0.0
+
+def getF (a : Array Float) (i : Nat) : Float := a.getD i nan
+
+def metalInOf (a : Array Float) (o : Nat) : MetalIn Float :=
+  let g := fun i => getF a (o + i)
+  { jCp1 := g 0, jCp2 := g 1, jNn := g 2, jNp1 := g 3, jNp2 := g 4, jOn := g 5, jOp1 := g 6,
+    jNen := g 7, jNep1 := g 8, jSp1 := g 9, jSp2 := g 10, jSp3 := g 11,
+    ne := g 12, nh0 := g 13, nhe0 := g 14, nhp := g 15,
+    aCp1 := g 16, aCp2 := g 17, aNn := g 18, aNp1 := g 19, aNp2 := g 20, aOn := g 21,
+    aOp1 := g 22, aNen := g 23, aNep1 := g 24, aSp1 := g 25, aSp2 := g 26, aSp3 := g 27,
+    rCp2H := g 28, rCp2He := g 29, iNnH := g 30, rNnH := g 31, rNp1H := g 32, rNp1He := g 33,
+    rNp2H := g 34, rNp2He := g 35, iOnH := g 36, rOnH := g 37, rOp1H := g 38, rOp1He := g 39,
+    rNep1H := g 40, rNep1He := g 41, rSp1H := g 42, rSp2H := g 43, rSp2He := g 44,
+    rSp3H := g 45, rSp3He := g 46 }
+
+def metList (m : MetalOut Float) : List Float :=
+  [m.c.f1, m.c.f2, m.n.f1, m.n.f2, m.n.f3, m.o.f1, m.o.f2, m.ne.f1, m.ne.f2, m.s.f1, m.s.f2, m.s.f3]
+
+def showL (l : List Float) : String := " ".intercalate (l.map showF)
+
+def zeros12 : List Float := List.replicate 12 0.0
+
+/-- balance table lookup by the bit pattern of the temperature; a miss yields NaNs -/
+def lookup (tab : Array (Nat × Bal Float (List Float))) (T : Float) : Bal Float (List Float) :=
+  match tab.find? (fun e => e.1 == bitsOf T) with
+  | some e => e.2
+  | none => ⟨nan, nan, nan, nan, List.replicate 12 nan⟩
+
+def parseTab (a : Array Float) (raw : Array String) (o n : Nat) : Array (Nat × Bal Float (List Float)) :=
+  (Array.range n).map fun k =>
+    let b := o + 17 * k
+    (nat! (raw.getD b "0"),
+      ⟨getF a (b + 1), getF a (b + 2), getF a (b + 3), getF a (b + 4),
+        (List.range 12).map fun i => getF a (b + 5 + i)⟩)
+
+def clampTag (tmin : Float) (r : TempOut Float (List Float)) : String :=
+  if r.tag != 2 then "special" else
+  if r.niter == 0 then "noiter"
+  else if r.T == 500.0 then "low"
+  else if r.T == 30000.0 then "cap"
+  else if r.T < tmin then "BELOW" else "mid"
+
+/-- instrumentation only (not part of the model): which special branches of `expOf`/`newT` and
+which clamps the iteration went through; re-walks the loop with the model's own `tempStep` -/
+def walk (bal : Float → Bal Float (List Float)) (eps tmin : Float) :
+    Nat → TState Float (List Float) → List String → List String
+  | 0, _, f => f
+  | n + 1, s, f =>
+    if tempCond eps s then
+      let b1 := bal (1.1 * s.T0); let b2 := bal (0.9 * s.T0); let b0 := bal s.T0
+      let add := fun (f : List String) (c : Bool) (t : String) => if c && !f.contains t then t :: f else f
+      let f := add f (b2.gain > 0.0 && !(b1.gain > 0.0)) "g-"
+      let f := add f (!(b2.gain > 0.0) && b1.gain > 0.0) "g+"
+      let f := add f (!(b2.gain > 0.0) && !(b1.gain > 0.0)) "g0"
+      let f := add f (b2.loss > 0.0 && !(b1.loss > 0.0)) "l-"
+      let f := add f (!(b2.loss > 0.0) && b1.loss > 0.0) "l+"
+      let f := add f (!(b2.loss > 0.0) && !(b1.loss > 0.0)) "l0"
+      let ed := expOf b1.gain b2.gain - expOf b1.loss b2.loss
+      let f := add f (!(b0.gain > 0.0 && ed != 0.0)) "W"
+      let tn := newT s.T0 (1.1 * s.T0) b0.gain b0.loss ed
+      let f := add f (tn < tmin) "v"
+      let f := add f (!(tn < tmin) && tn > 1.0e10) "^"
+      walk bal eps tmin n (tempStep bal tmin s) f
+    else f
+
+def walkTag (f : List String) : String :=
+  "".intercalate (["g-", "g+", "g0", "l-", "l+", "l0", "W", "v", "^"].filter f.contains)
+
+def step (_ : Unit) (w : List String) : Unit × String :=
+  let raw := w.toArray
+  let a := raw.map fl
+  let g := getF a
+  let op := match w.head? with
+    | some "hhex" => "hhe" | some "cellx" => "cell" | some "tempx" => "temp" | some o => o | none => ""
+  match op with
+  | "h0" =>
+    let r := h0HydrogenB (g 1) (g 2) (g 3)
+    ((), s!"h0 {showF r.1} #h0-b{r.2}")
+  | "h0m" =>
+    let r1 := h0HydrogenB (g 1) (g 2) (g 3)
+    let r2 := h0HydrogenB (g 4) (g 5) (g 6)
+    ((), s!"h0m {showF r1.1} {showF r2.1} #h0m-b{r1.2}{r2.2}")
+  | "met" =>
+    let m := metalInOf a 2
+    let dz := if m.ne == 0.0 then "ne0" else "ne+"
+    ((), s!"met {showL (metList (metalFractions m))} #met-{dz}")
+  | "hhe" =>
+    let r := hHeSolve (g 1) (g 2) (g 3) (g 4) (g 5) (g 6) (g 7)
+    let cn := if r.chNeg then "-chneg" else ""
+    let bucket := if r.niter == 0 then "0" else if r.niter ≤ 5 then "1to5" else if r.niter ≤ 10 then "6to10" else "11to20"
+    if r.abort then ((), s!"hhe abort #hhe-abort{cn}")
+    else ((), s!"hhe {showF r.h0} {showF r.he0} #hhe-it{bucket}{cn}")
+  | "cell" =>
+    let jfac := g 1
+    let mean := fun i => g (5 + i)
+    let m0 := metalInOf a (21 - 16)   -- alphas start at token 21, ct at 33; j/densities are overwritten below
+    let m : MetalIn Float :=
+      { m0 with
+        jCp1 := jfac * mean 2, jCp2 := jfac * mean 3, jNn := jfac * mean 4, jNp1 := jfac * mean 5,
+        jNp2 := jfac * mean 6, jOn := jfac * mean 7, jOp1 := jfac * mean 8, jNen := jfac * mean 9,
+        jNep1 := jfac * mean 10, jSp1 := jfac * mean 11, jSp2 := jfac * mean 12, jSp3 := jfac * mean 13,
+        ne := 0.0, nh0 := 0.0, nhe0 := 0.0, nhp := 0.0 }
+    let r := ionCell (jfac * mean 0) (jfac * mean 1) (g 2) (g 4) (g 19) (g 20) (g 3) m
+    let cn := if r.tag == 3 || r.tag == 2 then
+        (if (withDensities m (g 2) (g 4) r.h0 r.he0).ne > 0.0 then "-ne+" else "-ne0") else ""
+    if r.abort then ((), s!"cell abort #cell-t{r.tag}-abort")
+    else ((), s!"cell {showF r.h0} {showF r.he0} {showL (metList r.met)} #cell-t{r.tag}{cn}")
+  | "temp" =>
+    -- 1..19 scalars, 20..33 mean, 34..35 heat, 36..47 met0, 48 aH8, 49 aHe8, 50 ntab, 51.. table
+    let ntab := nat! (raw.getD 50 "0")
+    let tab := parseTab a raw 51 ntab
+    let i : TempIn Float (List Float) :=
+      { jfac := g 1, meanH := g 20, meanHe := g 21, n := g 3, Told := g 4, aHe := g 5,
+        crfac := g 12, crcell := g 13, crlim := g 14, eps := g 17, tmin := g 18,
+        maxit := nat! (raw.getD 19 "0"), alphaH8 := g 48, alphaHe8 := g 49,
+        met0 := (List.range 12).map fun k => g (36 + k) }
+    let r := temperatureCell (fun _ T => lookup tab T) i
+    if r.abort then ((), s!"temp abort #temp-t{r.tag}-abort")
+    else
+      let met := if r.metZero then zeros12 else r.met
+      let wt := if r.tag == 2 then
+          walkTag (walk (lookup tab) i.eps i.tmin i.maxit ⟨tempInit i.Told, 0.0, 0.0, 1.0, 0.0, i.met0⟩
+            [])
+        else ""
+      ((), s!"temp {showF r.T} {showF r.h0} {showF r.he0} {showL met} #temp-t{r.tag}-{clampTag i.tmin r}{wt}")
+  | "abort" => ((), "abort #impl-abort-in-prep")
+  | _ => ((), "bad-op")
+
+def main : IO Unit := runDriver step ()
